@@ -1,6 +1,7 @@
 import ast
 import functools
 import inspect
+import re
 from collections.abc import Mapping, MutableMapping
 from typing import (
     TYPE_CHECKING,
@@ -145,7 +146,20 @@ def stateful_eval(
     stateful_nodes: list[tuple[str, ast.Call]] = []
     for node in ast.walk(code):
         if _is_stateful_transform(node, env):
-            stateful_nodes.append((format_expr(node), cast(ast.Call, node)))
+            # State is keyed by the code as the user wrote it (that is, with
+            # any sanitized variable names restored), so that keys neither
+            # depend on the aliases chosen nor collide when different names
+            # sanitize alike.
+            name = format_expr(node)
+            for alias in sorted(aliases, key=len, reverse=True):
+                if aliases[alias] == alias:
+                    continue  # A valid identifier needs no quoting.
+                name = re.sub(
+                    rf"\b{re.escape(alias)}\b",
+                    lambda _, alias=alias: f"`{aliases[alias]}`",
+                    name,
+                )
+            stateful_nodes.append((name, cast(ast.Call, node)))
 
     # Mutate stateful nodes to pass in state from a shared dictionary.
     for name, node in stateful_nodes:
@@ -161,12 +175,25 @@ def stateful_eval(
         node.keywords.append(
             ast.keyword(
                 "_metadata",
-                ast.parse(f'__FORMULAIC_METADATA__.get("{name}")', mode="eval").body,
+                ast.Call(
+                    func=ast.Attribute(
+                        value=ast.Name(id="__FORMULAIC_METADATA__", ctx=ast.Load()),
+                        attr="get",
+                        ctx=ast.Load(),
+                    ),
+                    args=[ast.Constant(value=name)],
+                    keywords=[],
+                ),
             )
         )
         node.keywords.append(
             ast.keyword(
-                "_state", ast.parse(f'__FORMULAIC_STATE__["{name}"]', mode="eval").body
+                "_state",
+                ast.Subscript(
+                    value=ast.Name(id="__FORMULAIC_STATE__", ctx=ast.Load()),
+                    slice=ast.Constant(value=name),
+                    ctx=ast.Load(),
+                ),
             )
         )
         node.keywords.append(
